@@ -72,7 +72,7 @@ R75(t0, t1) ==
 \*      evs, panicked]
 TmInit ==
   [ now |-> <<0, 0>>, cnow |-> <<0, 0>>, queue |-> {}, var |-> << >>, free |-> 0, seq |-> 0,
-    keys |-> << >>, n |-> 0, nt |-> 0, nid |-> 1, evs |-> << >>, panicked |-> FALSE ]
+    keys |-> << >>, n |-> 0, nt |-> 0, nid |-> 1, evs |-> << >>, panicked |-> FALSE, obs |-> {} ]
 
 Emit(s, e) == [s EXCEPT !.evs = Append(@, e)]
 
